@@ -1,0 +1,60 @@
+//go:build verif
+
+package authorization
+
+// C04, approval side: ABI argument decoding of approve / revoke / allowance (comment-only; compiled only with -tags verif).
+// Lib specs: /verif/specs/c04/*.spec (66_approval.spec for this file).
+
+/*@
+specfunc MaxU256() int = 115792089237316195423570985008687907853269984665640564039457584007913129639935
+specfunc IsStrs(x int) bool = typeis(x, "[]string")
+// a well-formed list of message type URLs: non-empty, no empty string
+specfunc UrlsOk(x int) bool = typeis(x, "[]string") && len(unbox(x, "[]string")) > 0 && (forall i int :: 0 <= i && i < len(unbox(x, "[]string")) ==> unbox(x, "[]string")[i] != "")
+
+// (grantee, amount, methods): the grantee is args[0] (non-zero), the methods are args[2] unchanged, the coin is
+// {denom, args[1]} - nil ("no limit") exactly when the amount is MaxUint256 or not a *big.Int; a negative amount is refused
+func CheckApprovalArgs
+    // args come from abi.Arguments.Unpack: a uint256 argument is never a nil *big.Int
+    requires abi_nonnil: len(args) == 3 && isdyn(args[1], *BigInt) ==> dyn(args[1], *BigInt) != nil
+    let amt = *dyn(args[1], *BigInt)
+    let ok = len(args) == 3 && isdyn(args[0], Address) && dyn(args[0], Address) != zero_EvmAddr && !(isdyn(args[1], *BigInt) && amt < 0) && UrlsOk(args[2])
+    ensures err_iff: (result.3 == nil) == ok
+    ensures grantee: result.3 == nil ==> result.0 == dyn(args[0], Address) && result.0 != zero_EvmAddr
+    ensures methods: result.3 == nil ==> result.2 == unbox(args[2], "[]string") && len(result.2) > 0 && (forall i int :: 0 <= i && i < len(result.2) ==> result.2[i] != "")
+    ensures no_limit: result.3 == nil ==> (result.1 == nil) == (!isdyn(args[1], *BigInt) || amt == MaxU256())
+    ensures coin: result.3 == nil && result.1 != nil ==> fresh(result.1) && result.1.Denom == denom && result.1.Amount == amt && amt >= 0
+    ensures refused: result.3 != nil ==> result.1 == nil && result.0 == zero_EvmAddr
+
+func validateMsgTypes
+    ensures err_iff: (result.1 == nil) == UrlsOk(arg)
+    ensures methods: result.1 == nil ==> result.0 == unbox(arg, "[]string")
+
+func CheckRevokeArgs
+    let ok = len(args) == 2 && isdyn(args[0], Address) && dyn(args[0], Address) != zero_EvmAddr && UrlsOk(args[1])
+    ensures err_iff: (result.2 == nil) == ok
+    ensures decoded: result.2 == nil ==> result.0 == dyn(args[0], Address) && result.0 != zero_EvmAddr && result.1 == unbox(args[1], "[]string")
+            && len(result.1) > 0 && (forall i int :: 0 <= i && i < len(result.1) ==> result.1[i] != "")
+
+func CheckAllowanceArgs
+    let ok = len(args) == 3 && isdyn(args[0], Address) && dyn(args[0], Address) != zero_EvmAddr && isdyn(args[1], Address) && dyn(args[1], Address) != zero_EvmAddr
+             && isdyn(args[2], string) && dyn(args[2], string) != ""
+    ensures err_iff: (result.3 == nil) == ok
+    ensures decoded: result.3 == nil ==> result.0 == dyn(args[0], Address) && result.1 == dyn(args[1], Address) && result.2 == dyn(args[2], string)
+
+// event emission: writes an EVM log only - no effect on the Cosmos state, the grants or the balance mirror (frame proved)
+func EmitRevocationEvent
+    // abi.json: event Revocation has 3 inputs (grantee, granter indexed; methods)
+    requires wf: ctx_height(args.Ctx) >= 0 && len(args.ContractEvents["Revocation"].Inputs) == 3 && args.StateDB != nil
+    ensures true
+func EmitIBCTransferAuthorizationEvent
+    // abi.json: event IBCTransferAuthorization has 3 inputs (grantee, granter indexed; allocations)
+    requires wf: ctx_height(ctx) >= 0 && len(event.Inputs) == 3 && stateDB != nil
+    ensures true
+@*/
+
+/*@
+// the authorization handed out for a TransferAuthorization grant is a fresh copy of the stored one (65_allocations.spec: g_ta)
+extend func CheckAuthzExists
+    ensures allocations: result.2 == nil && g_kind[key] == TransferTag() ==> fresh(unbox(result.0, "*github.com/cosmos/ibc-go/v7/modules/apps/transfer/types.TransferAuthorization"))
+            && *unbox(result.0, "*github.com/cosmos/ibc-go/v7/modules/apps/transfer/types.TransferAuthorization") == g_ta[key]
+@*/
